@@ -230,6 +230,12 @@ func resolveAnchors(p *Prog) *Anchors {
 	a.AwsGetInstance = a.method(awsCP, "GetInstance")
 
 	a.census()
+	p.noExpand = map[*ssa.Function]bool{}
+	for _, f := range []*ssa.Function{a.CalcDelta, a.CalcPercent, a.GetTime, a.GetTaint, a.GetForceTaint, a.PodsRemaining, a.SafeFromDeletion} {
+		if f != nil {
+			p.noExpand[f] = true
+		}
+	}
 
 	// structural roles -----------------------------------------------------------------------
 	// scan body: the method of *Controller with a *NodeGroupState parameter that lists pods and nodes
@@ -263,7 +269,15 @@ func resolveAnchors(p *Prog) *Anchors {
 				}
 			}
 		}
-		if lists >= 2 {
+		_ = lists
+		// the scan body is the per-group method RunOnce calls (wherever the listing itself lives)
+		calledByRunOnce := false
+		for _, g := range p.callees[a.RunOnce] {
+			if g == f && len(callsTo(a.RunOnce, f)) > 0 {
+				calledByRunOnce = true
+			}
+		}
+		if calledByRunOnce {
 			if a.Scan != nil {
 				a.errf("scan body is not unique: %s and %s", funcID(a.Scan), funcID(f))
 			}
@@ -277,7 +291,7 @@ func resolveAnchors(p *Prog) *Anchors {
 		}
 	}
 	if a.Scan == nil {
-		a.errf("scan body (method of *Controller listing pods and nodes of a *NodeGroupState) not found")
+		a.errf("scan body (method of *Controller taking a *NodeGroupState, called by RunOnce) not found")
 	}
 	if a.Filter == nil {
 		a.errf("classifier (method of *Controller returning four node lists) not found")
@@ -286,9 +300,9 @@ func resolveAnchors(p *Prog) *Anchors {
 	for _, s := range a.A {
 		switch s.Class {
 		case "A-TAINT":
-			a.TaintLoop = a.uniq(a.TaintLoop, s.Fn, "taint loop")
+			a.TaintLoop = a.uniq(a.TaintLoop, a.liftThinWrapper(s), "taint loop")
 		case "A-UNTAINT":
-			a.UntaintLoop = a.uniq(a.UntaintLoop, s.Fn, "untaint loop")
+			a.UntaintLoop = a.uniq(a.UntaintLoop, a.liftThinWrapper(s), "untaint loop")
 		case "A-CLOUD-INC":
 			a.CloudStep = a.uniq(a.CloudStep, s.Fn, "cloud step")
 		case "A-CLOUD-DEL":
